@@ -392,6 +392,7 @@ func (fr *frame) runBlock() {
 		}
 		if p := instr.Pos(); p.IsValid() {
 			fr.lastPos = p
+			e.lastPos = p
 		}
 		if fr.visit(instr) {
 			return
@@ -748,7 +749,7 @@ func (fr *frame) indexAddr(instr *ssa.IndexAddr) Value {
 		}
 		return sp
 	}
-	i := e.concretize(idx, 64, "index of non-scalar element")
+	i := e.concretize(idx, 128, "index of non-scalar element")
 	return &cells[i]
 }
 
